@@ -904,14 +904,15 @@ def run(ctx, known, built):
         ctx.violations[:0] = front
     ctx.cov.update({
         "evaluations": stats["cases"] + dstats["perturbed"],
-        "distinct_nontrivial": stats["wf"] + dstats["perturbed"],
+        "distinct_nontrivial": len(set(json.dumps(rec["doc"], sort_keys=True) for _, rec in allrecs if rec["wf"]))
+                               + len(set(json.dumps(pt) for _, pt, _ in pert[:len(loaded)])),
         "rule": "encoder side: generated documents (60% well-formed with every optional attribute present/absent, discrete and "
                 "hidden axes, all f32 classes, nested libs with every plist type; 15% with strings from the known classes; 25% "
                 "ill-formed in one or two ways) saved by norad, file parsed by expat and compared with the model's tree, loaded "
                 "by norad and compared with the model's decode; non-trivial = well-formed document (save, re-read and load all "
-                "succeed and the full oracle applies). Decoder side: well-formed saved trees with 1-2 local edits (dropped / "
+                "succeed and the full oracle applies), counted once per distinct document. Decoder side: well-formed saved trees with 1-2 local edits (dropped / "
                 "duplicated / swapped / renamed / unknown attributes and elements, replaced values, integer spellings), "
-                "rendered by the driver, loaded by norad and compared with the model's decode; all count as non-trivial.",
+                "rendered by the driver, loaded by norad and compared with the model's decode; counted once per distinct tree.",
         "exhaustive": False,
         "input_distribution": dict(stats, **dstats),
         "traces_validated_against_impl": stats["cases"] + dstats["perturbed"],
@@ -936,8 +937,22 @@ def replay(ctx, path):
                 doc = c["document"]
                 break
     if doc is None:
-        print("replay file names no document (kind=%s): %s" % (d.get("kind"), json.dumps(d)[:600]))
-        return 1
+        trees = [c for c in (d.get("disagreeing_cases") or []) if "tree" in c]
+        if not trees:
+            print("replay file names no document (kind=%s): %s" % (d.get("kind"), json.dumps(d)[:600]))
+            return 1
+        # a perturbed file of the decoder-side correspondence: render it again and load it
+        pd = os.path.join(ctx.scratch, "replay_pert")
+        os.makedirs(pd)
+        buf = ["<?xml version='1.0' encoding='UTF-8'?>\n"]
+        render(trees[0]["tree"], buf, 0)
+        open(os.path.join(pd, "p0.xml"), "w", encoding="utf-8", newline="").write("".join(buf))
+        rc, o = sh([ctx.harness, "c18", "--load-dir", pd, "--out", pd])
+        print("edit:", trees[0].get("edit"))
+        print("".join(buf))
+        print("load:", open(os.path.join(pd, "loaded.jsonl")).read() if rc == 0 else o[-500:])
+        print("recorded when the check ran:", json.dumps(trees[0].get("load"), ensure_ascii=False)[:600])
+        return 0
     tmp = os.path.join(ctx.scratch, "replay.jsonl")
     open(tmp, "w").write(json.dumps(doc) + "\n")
     rc, o = sh([ctx.harness, "c18", "--replay", tmp, "--out", ctx.scratch])
